@@ -36,11 +36,13 @@ func init() {
 // the first five tags are the core alphabet (nil tag, empty tag, plain tags); the
 // rest widen it with region sub-tags of tags already present ("en-US" must not
 // read as "en"), script sub-tags, upper case, three-letter tags – and make
-// lists of up to 19 entries without a repeated tag possible
+// lists of up to 22 entries without a repeated tag possible
 var baseTags = []ap.LangRef{ap.NilLangRef, "en", "fr", "", "de", "en-US", "EN", "zh-Hans", "ast", "es", "it", "pt-BR", "nl", "ja",
 	// tags that are not well-formed BCP 47 but that applications do use as keys (POSIX locales, glibc
 	// modifiers, a wildcard, a long private tag, a blank): a LangRef is any string
-	"en_US", "sr@latin", "*", "x-private-extension", " "}
+	"en_US", "sr@latin", "*", "x-private-extension", " ",
+	// tags with a meaning of their own in BCP 47 / ActivityStreams: still just keys here
+	"und", "mul", "zxx"}
 
 // tags is the alphabet of the current run: baseTags, or – 1 run in 40, a "long" run – baseTags
 // plus 114 synthetic tags, so that lists of up to 128 entries without a repeated tag exist and a
@@ -165,6 +167,14 @@ func (ts *textSource) draw(c *core.Ctx, n ap.NaturalLanguageValues, nTags, nText
 		ts.last = nil
 		return nil
 	}
+	if t.Bool(1, 1500) {
+		// a very long text (a whole article: 1.2 or 3 MiB)
+		v := ap.Content(bytes.Repeat([]byte("0123456789abcdef"), []int{78000, 196700}[t.Draw(2)]))
+		v[len(v)-1] = byte('a' + t.Draw(26))
+		c.Probe("text_over_a_mebibyte")
+		ts.last = v
+		return v
+	}
 	v := drawText(t, nTexts)
 	ts.last = v
 	return v
@@ -223,7 +233,25 @@ func runHistory(c *core.Ctx) {
 	// bystanders: other lists alive at the same time, made the same way just before and just after
 	// the list under test. No call is ever made on them: they must read the same after every step.
 	var bystanders []ap.NaturalLanguageValues
-	switch t.Draw(5) {
+	var decodeMore func() ap.NaturalLanguageValues
+	switch t.Draw(6) {
+	case 5: // came out of the JSON decoder, as did two bystanders; more documents are decoded as the history goes on
+		dec := func() ap.NaturalLanguageValues {
+			doc := map[string]string{}
+			for i, k := 0, 1+t.Draw(3); i < k; i++ {
+				doc[string(drawTag(t, nTags))] = string(drawText(t, nTexts))
+			}
+			raw, _ := json.Marshal(doc)
+			var l ap.NaturalLanguageValues
+			_ = l.UnmarshalJSON(raw)
+			return l
+		}
+		bystanders = append(bystanders, dec())
+		n = dec()
+		bystanders = append(bystanders, dec())
+		decodeMore = dec
+		c.Probe("decoded_lists")
+		c.Logf("init decoded %s", renderPairs(snapshot(n)))
 	case 4: // made by the library's constructors, among other lists made the same way
 		mk := func() ap.NaturalLanguageValues {
 			if t.Bool(1, 2) {
@@ -303,6 +331,15 @@ func runHistory(c *core.Ctx) {
 	mutating := 0
 	for i := 0; i < nOps && !c.Failed(); i++ {
 		c.Rec.Ops++
+		if decodeMore != nil && t.Bool(1, 3) {
+			// the process decodes another document in between: nothing the lists at hand should notice
+			other := decodeMore()
+			bystanders = append(bystanders, other)
+			bystanderModels = append(bystanderModels, snapshot(other))
+			if !pairsEqual(snapshot(n), model) {
+				c.Fail("model", "C19/list-changed-without-a-call", "decoding another document changed the list under test from %s to %s", renderPairs(model), renderPairs(snapshot(n)))
+			}
+		}
 		switch t.Draw(6) {
 		case 0: // Set
 			tag, v := drawTag(t, nTags), ts.draw(c, n, nTags, nTexts)
